@@ -14,6 +14,8 @@ CONSTANTS
   CopytreeIgnoresExclude = TRUE
   DircmpIgnoreList = TRUE
   DryJobNeedsDstDir = TRUE
+  CloneExcludeHitsSpecial = TRUE
+  CliFilterOnCwd = TRUE
 INIT Init
 NEXT Next
 INVARIANT OverwriteIffStrategy
